@@ -122,10 +122,10 @@ pub use ohkami_lib::stream::{self, Stream, StreamExt};
 /// ```
 pub fn iter_cookies(raw: &str) -> impl Iterator<Item = (&str, &str)> {
     raw.split("; ").filter_map(|key_value| {
-        let mut key_value = key_value.split('=');
-        let key   = key_value.next()?;
-        let value = key_value.next()?;
-        key_value.next().is_none().then_some((key, value))
+        let (key, value) = key_value.split_once('=')?;
+        /* cookie-value = *cookie-octet / ( DQUOTE *cookie-octet DQUOTE ) */
+        let value = value.strip_prefix('"').and_then(|v| v.strip_suffix('"')).unwrap_or(value);
+        Some((key, value))
     })
 }
 
